@@ -16,6 +16,10 @@ connection ids = creation order); queries and files are opaque tokens (the harne
   `addtimeout`   the sends of every suspended add hit the write time-out: the library closes the connection
                  (`Op.closed`), then the add resumes with the error (`SOp.addEnd`)
   `pconn n`      user n opens a peer connection to us: no effect on the tree or on what is written     → `ok`
+  `closebegin c` connection c is reported CLOSING (`SOp.closeBegin`); its CLOSED notification is a later `close c`.
+                 status `ok` | `no-conn` (not registered, or closing already). While a connection is closing its remote
+                 end delivers nothing: `search c …`, `level c …`, `root c …` answer `no-conn`
+The `F=` field of a `search` lists the frames WRITTEN (`SState.sent`: nothing to a closing connection).
 Every op line answers
   `<status> F=<conn:unknown:user:ticket:q;…> R=<to:ticket:username:v,v…:l,l…;…> E=<user:q:count;…> P=<parent> C=<children> L=<live>`
 (`-` for empty); `props/c14.py:_canon` renders the implementation's observations the same way.
@@ -131,17 +135,17 @@ def handleLine (d : DS) (line : String) : DS × String :=
       match parseCarrier src carrier code unk with
       | some car =>
         let up : Bool := match src.toNat? with
-          | some c => decide (c ∈ d.s.d.live)
+          | some c => decide (c ∈ d.s.d.live) && !d.s.closing.contains c
           | none => d.s.d.session.isSome
         if up then
           let r : Req := ⟨car, user, ticket, q⟩
           let ev := (received d.env d.s.d r).map (fun n => (user, q, n))
           let s' := stepS d.env d.s (.search r)
           -- what was written for this carrier: the entry `stepS` just logged
-          let outs := match s'.log.getLast? with
+          let outs := match s'.sent.getLast? with
             | some e => e.2
             | none => []
-          ({ d with s := { s' with log := [] } }, s!"ok {render s'.d outs ev}")
+          ({ d with s := { s' with log := [], sent := [] } }, s!"ok {render s'.d outs ev}")
         else (d, (if src == "s" then "no-server " else "no-conn ") ++ render d.s.d [] none)
       | none => (d, s!"bad-op {render d.s.d [] none}")
     | _, _, _, _ => (d, s!"bad-op {render d.s.d [] none}")
@@ -157,9 +161,23 @@ def handleLine (d : DS) (line : String) : DS × String :=
   | ["addtimeout"] =>
     let s' := applyS d.env d.s (d.s.adding.flatMap (fun c => [SOp.tree (.closed c), SOp.addEnd c]))
     ({ d with s := s' }, s!"ok {render s'.d [] none}")
+  | ["closebegin", c] =>
+    match c.toNat? with
+    | some c =>
+      if c ∈ d.s.d.live ∧ c ∉ d.s.closing then
+        let s' := stepS d.env d.s (.closeBegin c)
+        ({ d with s := s' }, s!"ok {render s'.d [] none}")
+      else (d, s!"no-conn {render d.s.d [] none}")
+    | none => (d, s!"bad-op {render d.s.d [] none}")
   | ["pconn", n] =>
     (d, (if n.toNat?.isSome then "ok " else "bad-op ") ++ render d.s.d [] none)
   | ws =>
+    -- the remote end of a closing connection is gone: it announces nothing any more
+    let silent : Bool := match ws with
+      | ["level", c, _] => (c.toNat?.map d.s.closing.contains).getD false
+      | ["root", c, _] => (c.toNat?.map d.s.closing.contains).getD false
+      | _ => false
+    if silent then (d, s!"no-conn {render d.s.d [] none}") else
     let (ops, st) := treeLine d.s.d ws
     let s' := applyS d.env d.s (ops.map SOp.tree)
     ({ d with s := s' }, s!"{st} {render s'.d [] none}")
